@@ -252,7 +252,9 @@ def explore(check, tier, seed=0):
     for sj, (case, v, r, count) in sorted(viol_groups.items(), key=lambda kv: len(repr(kv[1][0]))):
         # determinism: the same case must fail the same way twice more
         ok = True
-        for _ in range(2):
+        timed_out = "timeout" in json.dumps([v.get("sig"), r.get("outcome")], default=str)
+        driver.TIMEOUT_SCALE = 5.0 if timed_out else 1.0      # the pool is gone by now; a genuine hang still exceeds five times the limit
+        for _ in range(1 if timed_out else 2):
             c2, r2 = _worker(case)
             if not any(json.dumps(v2.get("sig"), sort_keys=True, default=str) == sj
                        for v2 in (r2.get("viol") or ())):
@@ -276,6 +278,7 @@ def explore(check, tier, seed=0):
                   flush=True)
         stats["violations"].append({"sig": v.get("sig"), "what": v.get("what"), "count": count})
         exit_code = 1
+    driver.TIMEOUT_SCALE = 1.0
     for fid, (e, cnt, case) in sorted(known_lines.items()):
         print(f"KNOWN-FINDING: property={check.id} {e['id']}: {e['what']} ({cnt} explored cases)",
               flush=True)
